@@ -166,3 +166,9 @@ Lemma racy_fixed c : racy jfixed c = false.
 Proof. reflexivity. Qed.
 Lemma racy_current_count : length (filter (racy jcurrent) all_cfgs) = 75.
 Proof. vm_compute. reflexivity. Qed.
+
+(** a job killed while the slow source sleeps is recorded as killed (repaired variant, every configuration) *)
+Lemma kill_recorded (c : cfg) :
+  negb (must_kill c) || negb (accepted jfixed c)
+  || (match o_result (run_job jfixed c) with Some RKill => true | _ => false end) = true.
+Proof. revert c. apply all_cfg_bool. vm_compute. reflexivity. Qed.
